@@ -102,27 +102,27 @@ theorem rebalInsertLoop_rb (f : Nat) : ∀ (st : PT) (T : ITree) (q : Path) (z :
           · cases d2 with
             | L =>
               simp only [ITree.subtree_L, ITree.subtree_root] at hzp; subst hzp
-              obtain ⟨st', e1, hA⟩ := insert_step_L_case3 hAt rfl f
-              exact fin st' z _ e1 hA (stop_after hA f rfl .L rfl) (by rw [hB]; tl_eq) (by rw [hB]; ids_perm)
+              obtain ⟨st', e1, hA⟩ := insert_step_L_case3 hAt rfl
+              exact fin st' z _ (e1 f) hA (stop_after hA f rfl .L rfl) (by rw [hB]; tl_eq) (by rw [hB]; ids_perm)
                 (by rw [hB]; exact (congrArg ITree.erase (ITree.fixInsLeft_case3 gi cg _ _ _ _ _ _ _ _ _ _ _ _ rfl)).symm.trans (ITree.erase_fixInsLeft _)) rfl
             | R =>
               simp only [ITree.subtree_R, ITree.subtree_root] at hzp; subst hzp
-              obtain ⟨st', e1, hA⟩ := insert_step_L_case2 hAt rfl f
-              exact fin st' p _ e1 hA (stop_after hA f rfl .L rfl) (by rw [hB]; tl_eq) (by rw [hB]; ids_perm)
+              obtain ⟨st', e1, hA⟩ := insert_step_L_case2 hAt rfl
+              exact fin st' p _ (e1 f) hA (stop_after hA f rfl .L rfl) (by rw [hB]; tl_eq) (by rw [hB]; ids_perm)
                 (by rw [hB]; exact (congrArg ITree.erase (ITree.fixInsLeft_case2 gi cg _ _ _ _ _ _ _ _ _ _ _ _ rfl (hsibs.resolve_right (by simp)))).symm.trans (ITree.erase_fixInsLeft _)) rfl
-          · obtain ⟨st', e1, hA⟩ := insert_step_L_case1 hAt d2 hzp f
-            exact cont st' _ _ _ e1 hA rfl (by rw [hB]; tl_eq) (by rw [hB]; first | exact List.Perm.refl _ | ids_perm)
+          · obtain ⟨st', e1, hA⟩ := insert_step_L_case1 hAt d2 hzp
+            exact cont st' _ _ _ (e1 f) hA rfl (by rw [hB]; tl_eq) (by rw [hB]; first | exact List.Perm.refl _ | ids_perm)
               (by rw [hB]; exact (congrArg ITree.erase (ITree.fixInsLeft_case1 gi cg _ _ _ _ _ _ _ _ _ _ _ _ hzc)).symm.trans (ITree.erase_fixInsLeft _))
           · cases d2 with
             | L =>
               simp only [ITree.subtree_L, ITree.subtree_root] at hzp; subst hzp
-              obtain ⟨st', e1, hA⟩ := insert_step_L_case3 hAt rfl f
-              exact fin st' z _ e1 hA (stop_after hA f rfl .L rfl) (by rw [hB]; tl_eq) (by rw [hB]; ids_perm)
+              obtain ⟨st', e1, hA⟩ := insert_step_L_case3 hAt rfl
+              exact fin st' z _ (e1 f) hA (stop_after hA f rfl .L rfl) (by rw [hB]; tl_eq) (by rw [hB]; ids_perm)
                 (by rw [hB]; exact (congrArg ITree.erase (ITree.fixInsLeft_case3 gi cg _ _ _ _ _ _ _ _ _ _ _ _ rfl)).symm.trans (ITree.erase_fixInsLeft _)) rfl
             | R =>
               simp only [ITree.subtree_R, ITree.subtree_root] at hzp; subst hzp
-              obtain ⟨st', e1, hA⟩ := insert_step_L_case2 hAt rfl f
-              exact fin st' p _ e1 hA (stop_after hA f rfl .L rfl) (by rw [hB]; tl_eq) (by rw [hB]; ids_perm)
+              obtain ⟨st', e1, hA⟩ := insert_step_L_case2 hAt rfl
+              exact fin st' p _ (e1 f) hA (stop_after hA f rfl .L rfl) (by rw [hB]; tl_eq) (by rw [hB]; ids_perm)
                 (by rw [hB]; exact (congrArg ITree.erase (ITree.fixInsLeft_case2 gi cg _ _ _ _ _ _ _ _ _ _ _ _ rfl (hsibs.resolve_right (by simp)))).symm.trans (ITree.erase_fixInsLeft _)) rfl
         | R =>
           simp only [ITree.subtree_R, ITree.subtree_root] at hp
@@ -133,27 +133,27 @@ theorem rebalInsertLoop_rb (f : Nat) : ∀ (st : PT) (T : ITree) (q : Path) (z :
           · cases d2 with
             | R =>
               simp only [ITree.subtree_R, ITree.subtree_root] at hzp; subst hzp
-              obtain ⟨st', e1, hA⟩ := insert_step_R_case3 hAt rfl f
-              exact fin st' z _ e1 hA (stop_after hA f rfl .R rfl) (by rw [hB]; tl_eq) (by rw [hB]; ids_perm)
+              obtain ⟨st', e1, hA⟩ := insert_step_R_case3 hAt rfl
+              exact fin st' z _ (e1 f) hA (stop_after hA f rfl .R rfl) (by rw [hB]; tl_eq) (by rw [hB]; ids_perm)
                 (by rw [hB]; exact (congrArg ITree.erase (ITree.fixInsRight_case3 gi cg _ _ _ _ _ _ _ _ _ _ _ _ rfl)).symm.trans (ITree.erase_fixInsRight _)) rfl
             | L =>
               simp only [ITree.subtree_L, ITree.subtree_root] at hzp; subst hzp
-              obtain ⟨st', e1, hA⟩ := insert_step_R_case2 hAt rfl f
-              exact fin st' p _ e1 hA (stop_after hA f rfl .R rfl) (by rw [hB]; tl_eq) (by rw [hB]; ids_perm)
+              obtain ⟨st', e1, hA⟩ := insert_step_R_case2 hAt rfl
+              exact fin st' p _ (e1 f) hA (stop_after hA f rfl .R rfl) (by rw [hB]; tl_eq) (by rw [hB]; ids_perm)
                 (by rw [hB]; exact (congrArg ITree.erase (ITree.fixInsRight_case2 gi cg _ _ _ _ _ _ _ _ _ _ _ _ rfl (hsibs.resolve_left (by simp)))).symm.trans (ITree.erase_fixInsRight _)) rfl
-          · obtain ⟨st', e1, hA⟩ := insert_step_R_case1 hAt d2 hzp f
-            exact cont st' _ _ _ e1 hA rfl (by rw [hB]; tl_eq) (by rw [hB]; first | exact List.Perm.refl _ | ids_perm)
+          · obtain ⟨st', e1, hA⟩ := insert_step_R_case1 hAt d2 hzp
+            exact cont st' _ _ _ (e1 f) hA rfl (by rw [hB]; tl_eq) (by rw [hB]; first | exact List.Perm.refl _ | ids_perm)
               (by rw [hB]; exact (congrArg ITree.erase (ITree.fixInsRight_case1 gi cg _ _ _ _ _ _ _ _ _ _ _ _ hzc)).symm.trans (ITree.erase_fixInsRight _))
           · cases d2 with
             | R =>
               simp only [ITree.subtree_R, ITree.subtree_root] at hzp; subst hzp
-              obtain ⟨st', e1, hA⟩ := insert_step_R_case3 hAt rfl f
-              exact fin st' z _ e1 hA (stop_after hA f rfl .R rfl) (by rw [hB]; tl_eq) (by rw [hB]; ids_perm)
+              obtain ⟨st', e1, hA⟩ := insert_step_R_case3 hAt rfl
+              exact fin st' z _ (e1 f) hA (stop_after hA f rfl .R rfl) (by rw [hB]; tl_eq) (by rw [hB]; ids_perm)
                 (by rw [hB]; exact (congrArg ITree.erase (ITree.fixInsRight_case3 gi cg _ _ _ _ _ _ _ _ _ _ _ _ rfl)).symm.trans (ITree.erase_fixInsRight _)) rfl
             | L =>
               simp only [ITree.subtree_L, ITree.subtree_root] at hzp; subst hzp
-              obtain ⟨st', e1, hA⟩ := insert_step_R_case2 hAt rfl f
-              exact fin st' p _ e1 hA (stop_after hA f rfl .R rfl) (by rw [hB]; tl_eq) (by rw [hB]; ids_perm)
+              obtain ⟨st', e1, hA⟩ := insert_step_R_case2 hAt rfl
+              exact fin st' p _ (e1 f) hA (stop_after hA f rfl .R rfl) (by rw [hB]; tl_eq) (by rw [hB]; ids_perm)
                 (by rw [hB]; exact (congrArg ITree.erase (ITree.fixInsRight_case2 gi cg _ _ _ _ _ _ _ _ _ _ _ _ rfl (hsibs.resolve_left (by simp)))).symm.trans (ITree.erase_fixInsRight _)) rfl
       · -- black parent: the loop stops
         have : rebalInsertLoop (f + 1) st z = st :=
